@@ -17,7 +17,7 @@ func init() {
 			"ranges over the whole snapshot and is left only when exhausted or on the success edge of Unpack, and the ciphertext prefix is sized with the salt/tag size of the very key being tried; (KEYBYTES) for every cipher spec of the SDK " +
 			"salt+2+tag <= bytesForKeyFinding <= salt+2+2*tag; (COHERENT) the returned id, reader/writer keys, salt generator, replay-history key and usage mark all derive from the one matched entry; (UPDATE) a key-list update replaces " +
 			"the list wholesale (snapshots of the old list stay detached); (SNAPSHOT) the per-connection snapshot walks the whole guarded list in every loop and, by case analysis over the branch predicates of those loops, places every key exactly once whatever the last-client-IP state, into slices that reach the result; " +
-			"(RACEFREE) every field of the shared components the authentication region touches is immutable, guarded by one lock on all accesses, confined or write-once.",
+			"(RACEFREE) every field of the shared components the authentication region touches is immutable, guarded by one lock on all accesses, confined or write-once. (UPDATE, cont.) no method other than Update inserts into or removes from the live list (Move* only); (DEDUP) a configured key is left out of the list only when its (cipher, secret) pair is already in it.",
 		NotDecided: "that AEAD trial decryption accepts exactly the right key (SDK + crypto), most-recently-used ordering effects on results, results of concurrent Update vs lookup (C19 covers the race part).",
 	})
 	register(&PropDef{ID: "C06", Level: "other", Run: runC06,
